@@ -100,34 +100,38 @@ DISTINCT_OLD = "forall(lambda j, k: implies(0 <= j and j < k and k < len({l}), o
 ALL_WERE = "forall(lambda j: implies(0 <= j and j < len({l}), old({l}[j].entered) == {v}))"
 OTHERS_SAME = ("forall(Ref('Frame'), lambda f: implies(f.framer is self and not member({l}, f), "
                "f.entered == old(f.entered)), trigger=lambda f: f.entered)")
+# the same with membership in the ENTRY contents of the list
+OTHERS_SAME_OLD = ("forall(Ref('Frame'), lambda f: implies(f.framer is self and not old(member({l}, f)), "
+                   "f.entered == old(f.entered)), trigger=lambda f: f.entered)")
 OTHER_ALTBAD = ("forall(Ref('Framer'), lambda a: implies(a is not self, a.altbad == old(a.altbad)), "
                 "trigger=lambda a: a.altbad)")
 
 
 def _walker(qual, lst, now, done, todo):
     """Framer.exit (now=False) / Framer.enter (now=True): appended invariants and post-conditions, all stated over the
-    ENTRY contents O = oldlist(lst) (what the callers know; Framer.exit reverses the list object in place).
-    `done` / `todo`: index ranges over O of the frames already visited / not yet visited after _i iterations"""
+    ENTRY contents of the list, old(lst[j]) (what the callers know; Framer.exit reverses the list object in place).
+    `done` / `todo`: index ranges over the entry contents of the frames already visited / not yet visited after _i
+    iterations"""
     c = _first(qual)
-    O = "oldlist(%s)" % lst
+    O = "old(%s[j])" % lst
     val = "True" if now else "False"
     was = "False" if now else "True"
     pre = "(%s and %s and not old(self.altbad))" % (ALL_WERE.format(l=lst, v=was), DISTINCT_OLD.format(l=lst))
     c.modifies += [ENTERED_ANY, "self.altbad"]
     c.loops[0]["inv"] += [
-        "forall(lambda j: implies(0 <= j and j < len(%s), %s[j].framer is self))" % (O, O),
-        "forall(lambda j: implies(%s, %s[j].entered == %s))" % (done, O, val),
+        "forall(lambda j: implies(0 <= j and j < len(%s), %s.framer is self))" % (lst, O),
+        "forall(lambda j: implies(%s, %s.entered == %s))" % (done, O, val),
         "forall(Ref('Frame'), lambda f: implies(f.framer is self and "
-        "forall(lambda j: implies(%s, %s[j] is not f)), f.entered == old(f.entered)), "
+        "forall(lambda j: implies(%s, %s is not f)), f.entered == old(f.entered)), "
         "trigger=lambda f: f.entered)" % (done, O),
         "implies(%s, not self.altbad)" % pre,
         # under that pre-condition the frames still to be visited are as they were (distinct frames of this framer)
-        "implies(%s, forall(lambda j: implies(%s, %s[j].entered == %s)))" % (pre, todo, O, was),
+        "implies(%s, forall(lambda j: implies(%s, %s.entered == %s)))" % (pre, todo, O, was),
         OTHER_ALTBAD,
     ]
     c.ensures += [
-        "forall(lambda j: implies(0 <= j and j < len(%s), %s[j].entered == %s))" % (O, O, val),
-        OTHERS_SAME.format(l=O),
+        "forall(lambda j: implies(0 <= j and j < len(%s), %s.entered == %s))" % (lst, O, val),
+        OTHERS_SAME_OLD.format(l=lst),
         "c06_alternation(implies(%s, not self.altbad))" % pre,
     ]
     return c
@@ -139,16 +143,15 @@ _walker("Framer.enter", "enters", True, "0 <= j and j < _i", "_i <= j and j < le
 # rexit / renter: neither flag is written (nothing appended: their modifies do not name the ghost fields)
 
 # ---------------------------------------------------------------- exitAll / enterAll (first variants: true list facts)
-OA = "oldlist(self.actives)"
 _c = _first("Framer.exitAll")
 _c.modifies += [ENTERED_ANY, "self.altbad"]
 _c.ensures += [
-    "forall(lambda j: implies(0 <= j and j < len(%s), not %s[j].entered))" % (OA, OA),
-    "forall(Ref('Frame'), lambda f: implies(f.framer is self and not member(%s, f), f.entered == old(f.entered)), "
-    "trigger=lambda f: f.entered)" % OA,
+    "forall(lambda j: implies(0 <= j and j < len(old(self.actives)), not old(self.actives[j]).entered))",
+    OTHERS_SAME_OLD.format(l="self.actives"),
     "c06_alternation(implies(%s and %s and not old(self.altbad), not self.altbad))"
-    % ("forall(lambda j: implies(0 <= j and j < len(%s), old(self.actives[j].entered)))" % OA,
-       "forall(lambda j, k: implies(0 <= j and j < k and k < len(%s), old(self.actives[j] is not self.actives[k])))" % OA),
+    % ("forall(lambda j: implies(0 <= j and j < len(old(self.actives)), old(self.actives[j].entered)))",
+       "forall(lambda j, k: implies(0 <= j and j < k and k < len(old(self.actives)), "
+       "old(self.actives[j] is not self.actives[k])))"),
 ]
 FO = "self.first.outline"
 _c = _first("Framer.enterAll")
